@@ -168,6 +168,15 @@ Proof.
   constructor; [lia | apply IH; lia].
 Qed.
 
+Lemma all_ones_le cs : Forall (fun c => 0 <= c_enc c <= 1) cs -> sum_enc cs = zlen cs -> Forall (fun c => c_enc c = 1) cs.
+Proof.
+  induction 1 as [|c t Hc Ht IH]; intro E; [constructor|].
+  cbn [sum_enc] in E. rewrite zlen_cons in E.
+  assert (sum_enc t <= zlen t).
+  { clear -Ht. induction Ht; [reflexivity|]. cbn [sum_enc]. rewrite zlen_cons. lia. }
+  constructor; [lia | apply IH; lia].
+Qed.
+
 (* ---------- the attribute walker ---------- *)
 Definition aw_inv (attrs rest : rle) (counter offset : Z) : Prop :=
   rest = skipn (Z.to_nat counter) attrs /\ 0 <= counter /\ offset = rle_len (firstn (Z.to_nat counter) attrs).
@@ -331,15 +340,16 @@ Proof.
 Qed.
 
 (* ---------- attrrange ---------- *)
-Lemma fold_append_expand runs : forall linea, nonneg runs -> nonneg linea ->
+Lemma fold_append_expand runs : forall linea, nonneg runs -> nonneg linea -> nozero linea ->
   expand (fold_left rle_append_modify runs linea) = expand linea ++ expand runs /\
-  nonneg (fold_left rle_append_modify runs linea).
+  nonneg (fold_left rle_append_modify runs linea) /\ nozero (fold_left rle_append_modify runs linea).
 Proof.
-  induction runs as [|[a n] t IH]; intros linea Hr Hl; cbn [fold_left expand].
+  induction runs as [|[a n] t IH]; intros linea Hr Hl Hz; cbn [fold_left expand].
   - now rewrite app_nil_r.
   - apply nonneg_cons in Hr; cbn [snd] in Hr; destruct Hr as [H1 H2].
-    destruct (IH (rle_append_modify linea (a, n)) H2 (nonneg_append_modify _ _ _ Hl H1)) as [X N].
-    split; [|exact N]. rewrite X, expand_append_modify by assumption. now rewrite app_assoc.
+    destruct (IH (rle_append_modify linea (a, n)) H2 (nonneg_append_modify _ _ _ Hl H1)
+                 (nozero_append_modify _ _ _ Hz Hl H1)) as (X & N & Z).
+    split; [|split; assumption]. rewrite X, expand_append_modify by assumption. now rewrite app_assoc.
 Qed.
 
 Definition encs_nonneg (text : list chr) : Prop := Forall (fun c => 0 <= c_enc c) text.
@@ -349,11 +359,11 @@ Proof. intros. unfold enc_len. now rewrite py_slice_sub. Qed.
 
 Lemma slow_spec text : encs_nonneg text -> forall runs o e destw linea,
   nonneg runs -> rle_len runs = e - o -> 0 <= o -> e <= zlen text ->
-  destw = sum_enc (sub text o e) -> nonneg linea ->
+  destw = sum_enc (sub text o e) -> nonneg linea -> nozero linea ->
   expand (attrrange_slow text runs o e destw linea) = expand linea ++ bytes_of (sub text o e) (expand runs) /\
-  nonneg (attrrange_slow text runs o e destw linea).
+  nonneg (attrrange_slow text runs o e destw linea) /\ nozero (attrrange_slow text runs o e destw linea).
 Proof.
-  intros Henc. induction runs as [|[a n] t IH]; intros o e destw linea Hr Hl Ho He Hd Hla; cbn [attrrange_slow].
+  intros Henc. induction runs as [|[a n] t IH]; intros o e destw linea Hr Hl Ho He Hd Hla Hz; cbn [attrrange_slow].
   - cbn [expand]. unfold bytes_of. rewrite combine_nil. cbn [flat_map]. rewrite app_nil_r. auto.
   - apply nonneg_cons in Hr; cbn [snd] in Hr; destruct Hr as [H1 H2].
     pose proof (rle_len_nonneg t H2) as Ht. cbn [rle_len] in Hl.
@@ -361,7 +371,8 @@ Proof.
     destruct (o + n =? e) eqn:E.
     + assert (rle_len t = 0) by lia. cbn [expand]. rewrite (expand_zero t) by assumption. rewrite app_nil_r.
       pose proof (sum_enc_nonneg _ Hsub).
-      rewrite expand_append_modify by (assumption || lia). split; [|apply nonneg_append_modify; [assumption | lia]].
+      rewrite expand_append_modify by (assumption || lia).
+      split; [|split; [apply nonneg_append_modify | apply nozero_append_modify]; assumption || lia].
       f_equal. subst destw. rewrite <- bytes_of_const by assumption. f_equal.
       rewrite length_sub by lia. f_equal. lia.
     + assert (Hm : o + n <= e) by lia.
@@ -369,10 +380,11 @@ Proof.
       assert (Hs1 : Forall (fun c => 0 <= c_enc c) (sub text o (o + n))) by (now apply Forall_sub).
       pose proof (sum_enc_nonneg _ Hs1) as Hp1.
       destruct (IH (o + n) e (destw - sum_enc (sub text o (o + n))) (rle_append_modify linea (a, sum_enc (sub text o (o + n)))))
-        as [X N]; try assumption; try lia.
+        as (X & N & Z); try assumption; try lia.
       * subst destw. rewrite (sub_split text o (o + n) e) by lia. rewrite sum_enc_app. lia.
       * now apply nonneg_append_modify.
-      * split; [|exact N]. rewrite X, expand_append_modify by assumption.
+      * now apply nozero_append_modify.
+      * split; [|split; assumption]. rewrite X, expand_append_modify by assumption.
         cbn [expand]. rewrite (sub_split text o (o + n) e) by lia.
         rewrite bytes_of_app by (rewrite length_sub, repeat_length by lia; f_equal; lia).
         rewrite <- app_assoc. do 2 f_equal.
@@ -402,33 +414,51 @@ Definition seg_spec (text : list chr) (attrs : rle) (s : seg) : list attr :=
   | SPad sc (Some o) => if o =? 0 then repeat None (Z.to_nat sc) else repeat (rle_get_at attrs o) (Z.to_nat sc)
   end.
 
-Definition ls_ok (attrs : rle) (ls : lstate) : Prop := nonneg (l_attr ls) /\ aw_ok attrs (l_aw ls).
+(* what is known of the per-character data: no negative lengths, and a byte of a bytes text /
+   an ASCII character of a str text never becomes more than one byte (it is 0 bytes for SO/SI) *)
+Definition enc_ok (isb : bool) (text : list chr) : Prop :=
+  Forall (fun c => 0 <= c_enc c /\ ((isb = true \/ c_ascii c = true) -> c_enc c <= 1)) text.
 
-Lemma attrrange_point text attrs st linea o destw : nonneg attrs -> aw_ok attrs st -> nonneg linea ->
+Lemma enc_ok_nonneg isb text : enc_ok isb text -> encs_nonneg text.
+Proof. apply Forall_impl. intros c [H _]. exact H. Qed.
+
+Definition ls_ok (attrs : rle) (ls : lstate) : Prop :=
+  nonneg (l_attr ls) /\ nozero (l_attr ls) /\ aw_ok attrs (l_aw ls).
+
+Lemma attrrange_point isb text attrs st linea o destw : nonneg attrs -> aw_ok attrs st -> nonneg linea -> nozero linea ->
   0 <= o -> 0 <= destw ->
-  exists la st', attrrange text attrs st linea o o destw = Ok (la, st') /\
-    expand la = expand linea ++ repeat (rle_get_at attrs o) (Z.to_nat destw) /\ nonneg la /\ aw_ok attrs st'.
+  exists la st', attrrange isb text attrs st linea o o destw = Ok (la, st') /\
+    expand la = expand linea ++ repeat (rle_get_at attrs o) (Z.to_nat destw) /\ nonneg la /\ nozero la /\ aw_ok attrs st'.
 Proof.
-  intros Hn Hok Hl Ho Hd. unfold attrrange.
+  intros Hn Hok Hl Hz Ho Hd. unfold attrrange.
   destruct (arange_point attrs st o Hn Hok Ho) as [P S].
   destruct (arange attrs st o o) as [runs st']. cbn [fst snd] in *. subst runs.
   rewrite Z.eqb_refl. eexists _, _. split; [reflexivity|].
-  split; [now apply expand_append_modify|]. split; [now apply nonneg_append_modify | exact S].
+  split; [now apply expand_append_modify|]. split; [now apply nonneg_append_modify|].
+  split; [now apply nozero_append_modify | exact S].
 Qed.
 
-Definition seg_uniform (text : list chr) (s : seg) : Prop :=
-  match s with
-  | SText _ o e => sum_enc (sub text o e) = e - o -> Forall (fun c => c_enc c = 1) (sub text o e)
-  | _ => True
-  end.
+(* the shortcut of attrrange is only taken when every character of the segment is one byte *)
+Lemma fast_path_ones isb text o e : enc_ok isb text -> 0 <= o -> o < e -> e <= zlen text ->
+  sum_enc (sub text o e) = e - o -> (isb || forallb c_ascii (py_slice text o e)) = true ->
+  Forall (fun c => c_enc c = 1) (sub text o e).
+Proof.
+  intros Hok Ho Hoe He Hs Hf. rewrite py_slice_sub in Hf by lia.
+  apply all_ones_le; [|unfold zlen; rewrite length_sub by lia; lia].
+  pose proof (Forall_sub _ text o e Hok) as Hsub.
+  destruct isb.
+  - eapply Forall_impl; [|exact Hsub]. intros c [H1 H2]. split; [assumption | apply H2; now left].
+  - cbn [orb] in Hf. rewrite forallb_forall in Hf. rewrite Forall_forall in *.
+    intros c Hc. destruct (Hsub c Hc) as [H1 H2]. split; [assumption | apply H2; right; now apply Hf].
+Qed.
 
-Lemma do_seg_spec text attrs ls s : encs_nonneg text -> nonneg attrs -> wf_seg text s -> seg_uniform text s ->
+Lemma do_seg_spec isb text attrs ls s : enc_ok isb text -> nonneg attrs -> wf_seg text s ->
   ls_ok attrs ls ->
-  exists ls', do_seg text attrs ls s = Ok ls' /\
+  exists ls', do_seg isb text attrs ls s = Ok ls' /\
     expand (l_attr ls') = expand (l_attr ls) ++ seg_spec text attrs s /\ ls_ok attrs ls'.
 Proof.
-  intros Henc Hn Hwf Hun [Hla Haw]. unfold do_seg.
-  destruct s as [sc o e | sc o raw ilen iw | sc [o|]]; cbn [wf_seg seg_check seg_sc seg_spec seg_uniform] in *.
+  intros Hok Hn Hwf (Hla & Hz & Haw). pose proof (enc_ok_nonneg _ _ Hok) as Henc. unfold do_seg.
+  destruct s as [sc o e | sc o raw ilen iw | sc [o|]]; cbn [wf_seg seg_check seg_sc seg_spec] in *.
   - destruct Hwf as (H1 & H2 & H3 & H4).
     destruct (sc <=? 0) eqn:E0; [lia|].
     destruct (e =? 0) eqn:E1; [lia|]. cbn [negb].
@@ -438,127 +468,123 @@ Proof.
     destruct (arange attrs (l_aw ls) o e) as [runs st']. cbn [fst snd] in *.
     destruct (o =? e) eqn:E2; [lia|].
     assert (Hsub : Forall (fun c => 0 <= c_enc c) (sub text o e)) by (now apply Forall_sub).
-    destruct (sum_enc (sub text o e) =? e - o) eqn:E3.
-    + destruct (fold_append_expand runs (l_attr ls) N Hla) as [X2 N2].
-      eexists. split; [reflexivity|]. cbn [l_attr l_aw]. split; [|split; assumption].
-      rewrite X2, X. f_equal. symmetry. apply bytes_of_ones; [apply Hun; lia|].
-      rewrite map_length, length_zrange, length_sub by lia. reflexivity.
-    + destruct (slow_spec text Henc runs o e (sum_enc (sub text o e)) (l_attr ls)) as [X2 N2];
+    destruct ((sum_enc (sub text o e) =? e - o) && (isb || forallb c_ascii (py_slice text o e))) eqn:E3.
+    + apply andb_prop in E3. destruct E3 as [E3 E4].
+      destruct (fold_append_expand runs (l_attr ls) N Hla Hz) as (X2 & N2 & Z2).
+      eexists. split; [reflexivity|]. cbn [l_attr l_aw]. split; [|repeat split; assumption].
+      rewrite X2, X. f_equal. symmetry. apply bytes_of_ones.
+      * apply (fast_path_ones isb); try assumption; lia.
+      * rewrite map_length, length_zrange, length_sub by lia. reflexivity.
+    + destruct (slow_spec text Henc runs o e (sum_enc (sub text o e)) (l_attr ls)) as (X2 & N2 & Z2);
         try assumption; try lia.
-      eexists. split; [reflexivity|]. cbn [l_attr l_aw]. split; [|split; assumption].
+      eexists. split; [reflexivity|]. cbn [l_attr l_aw]. split; [|repeat split; assumption].
       now rewrite X2, X.
   - destruct Hwf as (H1 & H2 & H3 & H4).
     destruct (sc <=? 0) eqn:E0; [lia|]. change (0 =? 0) with true. cbn [negb].
     destruct (raw =? 0) eqn:E1; [lia|]. cbn [negb].
-    destruct (attrrange_point text attrs (l_aw ls) (l_attr ls) o ilen Hn Haw Hla H2 H4) as (la & st' & E & X & N & S).
-    rewrite E. eexists. split; [reflexivity|]. cbn [l_attr l_aw]. split; [exact X | split; assumption].
+    destruct (attrrange_point isb text attrs (l_aw ls) (l_attr ls) o ilen Hn Haw Hla Hz H2 H4) as (la & st' & E & X & N & Z & S).
+    rewrite E. eexists. split; [reflexivity|]. cbn [l_attr l_aw]. split; [exact X | repeat split; assumption].
   - destruct Hwf as [H1 H2]. destruct (sc <? 0) eqn:E0; [lia|]. change (0 =? 0) with true. cbn [negb].
     destruct (o =? 0) eqn:E1; cbn [negb].
-    + eexists. split; [reflexivity|]. cbn [l_attr l_aw]. split; [|split; [|assumption]].
+    + destruct (sc =? 0) eqn:E2; cbn [negb].
+      * exists ls. split; [reflexivity|]. replace sc with 0 by lia. cbn. rewrite app_nil_r. split; [reflexivity | repeat split; assumption].
+      * eexists. split; [reflexivity|]. cbn [l_attr l_aw]. split; [|repeat split; try assumption].
+        -- rewrite expand_app. cbn [expand]. now rewrite app_nil_r.
+        -- apply nonneg_app. split; [assumption|]. apply nonneg_cons; cbn [snd]; split; [lia | constructor].
+        -- apply Forall_app. split; [assumption|]. constructor; [cbn [snd]; lia | constructor].
+    + destruct (sc =? 0) eqn:E2; cbn [negb].
+      * exists ls. split; [reflexivity|]. replace sc with 0 by lia. cbn. rewrite app_nil_r. split; [reflexivity | repeat split; assumption].
+      * destruct (attrrange_point isb text attrs (l_aw ls) (l_attr ls) o sc Hn Haw Hla Hz H2 H1) as (la & st' & E & X & N & Z & S).
+        rewrite E. eexists. split; [reflexivity|]. cbn [l_attr l_aw]. split; [exact X | repeat split; assumption].
+  - change (0 =? 0) with true. cbn [negb].
+    destruct (sc =? 0) eqn:E2; cbn [negb].
+    + exists ls. split; [reflexivity|]. replace sc with 0 by lia. cbn. rewrite app_nil_r. split; [reflexivity | repeat split; assumption].
+    + eexists. split; [reflexivity|]. cbn [l_attr l_aw]. split; [|repeat split; try assumption].
       * rewrite expand_app. cbn [expand]. now rewrite app_nil_r.
       * apply nonneg_app. split; [assumption|]. apply nonneg_cons; cbn [snd]; split; [lia | constructor].
-    + destruct (sc =? 0) eqn:E2; cbn [negb].
-      * exists ls. split; [reflexivity|]. replace sc with 0 by lia. cbn. rewrite app_nil_r. split; [reflexivity | split; assumption].
-      * destruct (attrrange_point text attrs (l_aw ls) (l_attr ls) o sc Hn Haw Hla H2 H1) as (la & st' & E & X & N & S).
-        rewrite E. eexists. split; [reflexivity|]. cbn [l_attr l_aw]. split; [exact X | split; assumption].
-  - change (0 =? 0) with true. cbn [negb].
-    eexists. split; [reflexivity|]. cbn [l_attr l_aw]. split; [|split; [|assumption]].
-    + rewrite expand_app. cbn [expand]. now rewrite app_nil_r.
-    + apply nonneg_app. split; [assumption|]. apply nonneg_cons; cbn [snd]; split; [lia | constructor].
+      * apply Forall_app. split; [assumption|]. constructor; [cbn [snd]; lia | constructor].
 Qed.
 
-Lemma do_segs_spec text attrs segs : encs_nonneg text -> nonneg attrs ->
-  Forall (wf_seg text) segs -> Forall (seg_uniform text) segs ->
+Lemma do_segs_spec isb text attrs segs : enc_ok isb text -> nonneg attrs ->
+  Forall (wf_seg text) segs ->
   forall ls, ls_ok attrs ls ->
-  exists ls', do_segs text attrs ls segs = Ok ls' /\
+  exists ls', do_segs isb text attrs ls segs = Ok ls' /\
     expand (l_attr ls') = expand (l_attr ls) ++ flat_map (seg_spec text attrs) segs /\ ls_ok attrs ls'.
 Proof.
-  intros Henc Hn Hwf Hun. revert Hun. induction Hwf as [|s r Hs Hr IH]; intros Hun ls Hok.
+  intros Hok Hn Hwf. induction Hwf as [|s r Hs Hr IH]; intros ls Hls.
   - exists ls. cbn. rewrite app_nil_r. auto.
-  - inversion Hun as [|? ? Hu1 Hu2]; subst.
-    destruct (do_seg_spec text attrs ls s Henc Hn Hs Hu1 Hok) as (ls1 & E1 & X1 & O1).
-    destruct (IH Hu2 ls1 O1) as (ls2 & E2 & X2 & O2).
+  - destruct (do_seg_spec isb text attrs ls s Hok Hn Hs Hls) as (ls1 & E1 & X1 & O1).
+    destruct (IH ls1 O1) as (ls2 & E2 & X2 & O2).
     exists ls2. cbn [do_segs]. rewrite E1. split; [exact E2|]. split; [|exact O2].
     rewrite X2, X1. cbn [flat_map]. now rewrite app_assoc.
 Qed.
 
-(* characters that all encode to at least one byte make every segment uniform *)
-Lemma uniform_of_pos text s : Forall (fun c => 1 <= c_enc c) text -> wf_seg text s -> seg_uniform text s.
-Proof.
-  intros H Hwf. destruct s as [sc o e| |]; cbn [seg_uniform]; [|exact I|exact I].
-  destruct Hwf as (H1 & H2 & H3 & H4). intro E.
-  apply all_ones; [now apply Forall_sub|]. unfold zlen. rewrite length_sub by lia. lia.
-Qed.
-
-Lemma pos_nonneg text : Forall (fun c => 1 <= c_enc c) text -> encs_nonneg text.
-Proof. apply Forall_impl. intros; lia. Qed.
-
 (* the lines of a whole layout, with the attribute walker shared between lines *)
-Lemma do_lines_spec text attrs maxcol lines : Forall (fun c => 1 <= c_enc c) text -> nonneg attrs ->
+Lemma do_lines_spec isb text attrs maxcol lines : enc_ok isb text -> nonneg attrs ->
   Forall (Forall (wf_seg text)) lines ->
   forall aw, aw_ok attrs aw ->
-  exists lss, do_lines text attrs maxcol aw lines = Ok lss /\
-    Forall2 (fun segs ls => expand (l_attr ls) = flat_map (seg_spec text attrs) segs /\ nonneg (l_attr ls)) lines lss.
+  exists lss, do_lines isb text attrs maxcol aw lines = Ok lss /\
+    Forall2 (fun segs ls => expand (l_attr ls) = flat_map (seg_spec text attrs) segs /\
+                            nonneg (l_attr ls) /\ nozero (l_attr ls)) lines lss.
 Proof.
-  intros Hpos Hn Hwf. induction Hwf as [|l r Hl Hr IH]; intros aw Hok.
+  intros Hok Hn Hwf. induction Hwf as [|l r Hl Hr IH]; intros aw Haw.
   - exists []. split; [reflexivity | constructor].
-  - assert (Hun : Forall (seg_uniform text) l).
-    { apply Forall_forall. intros s Hs. apply uniform_of_pos; [assumption|].
-      rewrite Forall_forall in Hl. now apply Hl. }
-    destruct (do_segs_spec text attrs l (pos_nonneg _ Hpos) Hn Hl Hun (LS [] 0 0 aw)) as (ls1 & E1 & X1 & [N1 O1]).
-    { split; [constructor | exact Hok]. }
+  - destruct (do_segs_spec isb text attrs l Hok Hn Hl (LS [] 0 0 aw)) as (ls1 & E1 & X1 & (N1 & Z1 & O1)).
+    { split; [constructor | split; [constructor | exact Haw]]. }
     destruct (IH (l_aw ls1) O1) as (lss & E2 & F2).
     exists (ls1 :: lss). cbn [do_lines]. rewrite E1, E2. split; [reflexivity|].
-    constructor; [|exact F2]. split; [exact X1 | exact N1].
+    constructor; [|exact F2]. split; [exact X1 | split; assumption].
 Qed.
 
-(* TextCanvas.__init__ only appends None *)
-Lemma canvas_line_spec maxcol ls row : nonneg (l_attr ls) -> canvas_line maxcol ls = Ok row ->
-  exists k, expand row = expand (l_attr ls) ++ repeat None k.
+(* TextCanvas.__init__ only appends None, and never a zero-length run *)
+Lemma canvas_line_spec maxcol ls row : nonneg (l_attr ls) -> nozero (l_attr ls) -> canvas_line maxcol ls = Ok row ->
+  (exists k, expand row = expand (l_attr ls) ++ repeat None k) /\ nozero row.
 Proof.
-  intros Hn. unfold canvas_line. destruct (maxcol <? l_cols ls); [discriminate|].
+  intros Hn Hz. unfold canvas_line. destruct (maxcol <? l_cols ls); [discriminate|].
   set (gap := _ - rle_len (l_attr ls)).
   destruct (gap <? 0) eqn:E0; [discriminate|]. destruct (gap =? 0) eqn:E1; intro H; inversion H; subst.
-  - exists 0%nat. now rewrite app_nil_r.
-  - exists (Z.to_nat gap). apply expand_append_modify; [assumption | lia].
+  - split; [exists 0%nat; now rewrite app_nil_r | assumption].
+  - split; [exists (Z.to_nat gap); apply expand_append_modify; [assumption | lia]|].
+    apply nozero_append_modify; [assumption | assumption | lia].
 Qed.
 
-Lemma canvas_lines_spec maxcol lss : forall rows, Forall (fun ls => nonneg (l_attr ls)) lss ->
+Lemma canvas_lines_spec maxcol lss : forall rows, Forall (fun ls => nonneg (l_attr ls) /\ nozero (l_attr ls)) lss ->
   canvas_lines maxcol lss = Ok rows ->
-  Forall2 (fun ls row => exists k, expand row = expand (l_attr ls) ++ repeat None k) lss rows.
+  Forall2 (fun ls row => (exists k, expand row = expand (l_attr ls) ++ repeat None k) /\ nozero row) lss rows.
 Proof.
   induction lss as [|x r IH]; intros rows Hn H; cbn [canvas_lines] in H.
   - inversion H; subst. constructor.
-  - inversion Hn; subst.
+  - inversion Hn as [|? ? [Hx1 Hx2] Hr]; subst.
     destruct (canvas_line maxcol x) as [a|] eqn:E1; [|discriminate].
     destruct (canvas_lines maxcol r) as [rs|] eqn:E2; [|discriminate].
     inversion H; subst. constructor; [now apply (canvas_line_spec maxcol) | now apply IH].
 Qed.
 
-Lemma layout_rows_spec text attrs lines maxcol rows :
-  Forall (fun c => 1 <= c_enc c) text -> nonneg attrs -> Forall (Forall (wf_seg text)) lines ->
-  apply_text_layout text attrs lines maxcol = Ok rows ->
-  Forall2 (fun segs row => exists k, expand row = flat_map (seg_spec text attrs) segs ++ repeat None k) lines rows.
+Lemma layout_rows_spec isb text attrs lines maxcol rows :
+  enc_ok isb text -> nonneg attrs -> Forall (Forall (wf_seg text)) lines ->
+  apply_text_layout isb text attrs lines maxcol = Ok rows ->
+  Forall2 (fun segs row => (exists k, expand row = flat_map (seg_spec text attrs) segs ++ repeat None k) /\ nozero row)
+          lines rows.
 Proof.
-  intros Hpos Hn Hwf. unfold apply_text_layout.
-  destruct (do_lines_spec text attrs maxcol lines Hpos Hn Hwf (0, 0)) as (lss & E & F).
+  intros Hok Hn Hwf. unfold apply_text_layout.
+  destruct (do_lines_spec isb text attrs maxcol lines Hok Hn Hwf (0, 0)) as (lss & E & F).
   { exists attrs. apply aw_inv_init. }
   rewrite E. intro H.
-  assert (Hnn : Forall (fun ls => nonneg (l_attr ls)) lss).
+  assert (Hnn : Forall (fun ls => nonneg (l_attr ls) /\ nozero (l_attr ls)) lss).
   { clear -F. induction F; constructor; [tauto | assumption]. }
   pose proof (canvas_lines_spec maxcol lss rows Hnn H) as G.
-  clear -F G. revert rows G. induction F as [|segs ls l l' [X N] _ IH]; intros rows G; inversion G; subst; constructor.
-  - destruct H1 as [k Hk]. exists k. now rewrite Hk, X.
+  clear -F G. revert rows G. induction F as [|segs ls l l' (X & N & Z) _ IH]; intros rows G; inversion G; subst; constructor.
+  - destruct H1 as [[k Hk] Hz]. split; [exists k; now rewrite Hk, X | assumption].
   - now apply IH.
 Qed.
 
 (* no ValueError from a well-formed layout *)
-Lemma layout_no_value_error text attrs lines maxcol :
-  Forall (fun c => 1 <= c_enc c) text -> nonneg attrs -> Forall (Forall (wf_seg text)) lines ->
-  exists lss, do_lines text attrs maxcol (0, 0) lines = Ok lss.
+Lemma layout_no_value_error isb text attrs lines maxcol :
+  enc_ok isb text -> nonneg attrs -> Forall (Forall (wf_seg text)) lines ->
+  exists lss, do_lines isb text attrs maxcol (0, 0) lines = Ok lss.
 Proof.
-  intros Hpos Hn Hwf.
-  destruct (do_lines_spec text attrs maxcol lines Hpos Hn Hwf (0, 0)) as (lss & E & _).
+  intros Hok Hn Hwf.
+  destruct (do_lines_spec isb text attrs maxcol lines Hok Hn Hwf (0, 0)) as (lss & E & _).
   { exists attrs. apply aw_inv_init. }
   now exists lss.
 Qed.
